@@ -93,3 +93,46 @@ impl Drv {
     pub fn matn<T: Lane>(&mut self, n: usize) -> Vec<Vec<T>> { (0..n).map(|_| self.vecn(n)).collect() }
     pub fn pick(&mut self, n: usize) -> usize { self.rng.gen_range(0..n) }
 }
+
+// ---------------------------------------------------------------------------
+// generators of structured exact operands
+
+/// A rational rotation matrix from a random non-zero integer quaternion (w,x,y,z):
+/// R = (1/n) * [[w²+x²-y²-z², 2(xy-wz), 2(xz+wy)], ...], n = w²+x²+y²+z².
+pub fn rot3(rng: &mut StdRng) -> Vec<Vec<Q>> {
+    loop {
+        let (w, x, y, z): (i64, i64, i64, i64) = (rng.gen_range(-3..=3), rng.gen_range(-3..=3), rng.gen_range(-3..=3), rng.gen_range(-3..=3));
+        let n = w * w + x * x + y * y + z * z;
+        if n == 0 { continue; }
+        let f = |v: i64| Q::frac(v, n);
+        return vec![
+            vec![f(w * w + x * x - y * y - z * z), f(2 * (x * y - w * z)), f(2 * (x * z + w * y))],
+            vec![f(2 * (x * y + w * z)), f(w * w - x * x + y * y - z * z), f(2 * (y * z - w * x))],
+            vec![f(2 * (x * z - w * y)), f(2 * (y * z + w * x)), f(w * w - x * x - y * y + z * z)],
+        ];
+    }
+}
+/// small rational, never zero
+pub fn nzq(rng: &mut StdRng) -> Q {
+    let n = [1, 2, 3, 4, 5, 7][rng.gen_range(0..6)];
+    let d = [1, 1, 2, 3, 4, 8][rng.gen_range(0..6)];
+    let s = if rng.gen_range(0..2) == 0 { -1 } else { 1 };
+    Q::frac(s * n, d)
+}
+/// scale factor: usually in +-{1/8..8}, sometimes tiny but far from negligible (2^-6 .. 2^-19; the
+/// code under test treats a squared axis length <= epsilon = 2^-40 as degenerate)
+pub fn scaleq(rng: &mut StdRng) -> Q {
+    if rng.gen_range(0..4) == 0 {
+        let k = [6u32, 10, 15, 19][rng.gen_range(0..4)];
+        let s = if rng.gen_range(0..2) == 0 { -1 } else { 1 };
+        Q::new(s * [1i128, 3, 5][rng.gen_range(0..3)], 1i128 << k)
+    } else { nzq(rng) }
+}
+pub fn smallq(rng: &mut StdRng) -> Q { Q::frac(rng.gen_range(-9..=9), [1, 1, 1, 2, 3, 4][rng.gen_range(0..6)]) }
+/// 4x4 [R*diag(s) | t ; 0 0 0 1]
+pub fn trs4(r: &[Vec<Q>], s: &[Q], t: &[Q]) -> Vec<Vec<Q>> {
+    let mut m = vec![vec![Q::int(0); 4]; 4];
+    for i in 0..3 { for j in 0..3 { m[i][j] = r[i][j] * s[j]; } m[i][3] = t[i]; }
+    m[3][3] = Q::int(1);
+    m
+}
